@@ -97,9 +97,11 @@ def resize_rules(ck, rules):
                     bad(rules["nint"], "n_int is an arithmetic function of the sizes", "n_int = %s" % src(st.value)[:80], st.stmt, str(e))
         # ---- limits
         if "limits" in rules:
-            cplx = [g for g in pf.guards if g[2] is not None and _is_complex_test(g[2])]
+            from ..common import path_literals as _plits
+            both = list(_plits([(g[2], g[1]) for g in pf.guards if g[2] is not None])) + list(_plits(pf.guards))
+            cplx = [(t, p_) for t, p_ in both if _is_complex_test(t)]
             is_c = cplx[-1][1] if cplx else None
-            scal = [g for g in pf.guards if g[2] is not None and dotted(g[2]) == "self.scaled"]
+            scal = [(t, p_) for t, p_ in both if dotted(t) == "self.scaled"]
             is_s = scal[-1][1] if scal else None
             if is_c is None or is_s is None:
                 ck.unsure(rules["limits"], f, "limits are computed under the complex / scaled case split", f.node,
@@ -469,8 +471,9 @@ def best_sizes_assembly(ck, rule_asm, rule_cap, rule_search):
     for pf in pfs:
         if pf.end == "raise":
             continue
-        gval = [g for g in pf.guards if g[2] is not None and src(g[2]) == "val is None"]
-        is_none = bool(gval and gval[0][1])
+        from ..common import none_state as _ns0
+        gval = [x for x in (_ns0([(g[2], g[1])], "val") for g in pf.guards if g[2] is not None) if x is not None]
+        is_none = bool(gval and gval[0])
         # ---- cap (all paths): last store to self.n_word is min(prev, n_word_max); closing resize passes no sizes
         wst = [st for st in pf.stores if st.path == "self.n_word"]
         if not wst:
@@ -524,10 +527,11 @@ def best_sizes_assembly(ck, rule_asm, rule_cap, rule_search):
                         bad(rule_asm, "the length searches are bounded by n_word_max - sign (not by the requested word)", "search bound %s" % b.show()[:80], g[3],
                             "with a short requested word the fraction search stops early and the integer length is estimated on a truncated value")
         # ---- assembly
-        gw = [g for g in pf.guards if g[2] is not None and src(g[2]) == "n_word is None" and isinstance(g[3], ast.If)]
+        from ..common import none_state as _ns
+        gw = [x for x in (_ns([(g[2], g[1])], "n_word") for g in pf.guards if g[2] is not None and isinstance(g[3], ast.If)) if x is not None]
         if not gw:
             continue
-        word_inferred = gw[-1][1]
+        word_inferred = gw[-1]
         fst = [st for st in pf.stores if st.path == "self.n_frac"]
         if len(wst) < 2 or not fst:
             continue
